@@ -12,11 +12,14 @@ func init() {
 			"which devices hold a replica and its mtime (old distinct / old colliding / MinMtime-1ns / MinMtime / new), and the referencing collections (classes, replication 0-4, possibly a class no mount offers); " +
 			"layouts of 1-4 services x 1-2 mounts are walked per shape in one fixed cyclic order (stride coprime to the sub-space size) from a seed-chosen start, layouts up to 16 services x 3 mounts are sampled (general mix, plus a one-class family built around devices mounted on several services); " +
 			"the real cleanupMounts, AddReplicas/IncreaseDesired, setupLookupTables, balanceBlock run on it and the marshalled trash/pull lists are judged (B1-B6) against a physical-device model of the case description; " +
+			"stream colls: 2-6 blocks on one sampled layout, 1-5 collections plus 0-3 copies / old versions (identical content = identical portable data hash; same or other storage classes and replication, replication possibly null = cluster default) go through the real addCollection, whole mount indexes through AddReplicas, in an arbitrary interleaving, then the real ComputeChangeSets; every block is judged B1-B6; " +
+			"stream sweep: the same kind of case (<= 8 services, replica timestamps hours away from the cutoff) is served by a stub API server and one stub keepstore per service, the real Balancer.Run commits pulls and trash, the PUT bodies received by the keepstores are judged B1-B6 per block, and the cutoff must have been fixed before the state was read: MinMtime + signature TTL <= arrival of the first index / collection page request of the sweep at a stub (two readings of one process clock in program order; cases during which the wall clock was stepped are not judged); " +
 			"non-trivial = some device holds a replica or some class has desired>0; distinct = distinct (services, mounts, shared devices holding a replica, replica devices, read-only view of a replica, classes desired, #trash, #pull, lost, under-replicated) tuples",
 		Assume: []string{
 			"all mounts of one device report the same replication, the same replica and the same mtime (what GetCurrentState feeds: one index per device applied to every mount of it); storage classes of the mounts of one device are usually equal, sometimes not",
 			"a trash request removes the device's copy for every mount of that device; every computed trash is carried out, no pull succeeds",
-			"one block at a time: balanceBlock is driven directly, ComputeChangeSets' worker pool is not exercised",
+			"streams enum/sampled/sampled-shared: one block at a time, balanceBlock is driven directly; streams colls and sweep: several blocks through ComputeChangeSets' worker pool",
+			"a collection without replication_desired wants the cluster default replication; storage_classes_desired empty or absent means class default",
 		},
 	})
 }
